@@ -35,9 +35,7 @@ type c16Config struct {
 	Attrs   []dict.AttrDef  `json:"attrs"`
 	HasAttr bool            `json:"has_attr_file"`
 	Split   bool            `json:"one_file_per_chord,omitempty"`
-	// Override: the user file redefines built-in names. The statement does not fix whether the
-	// earlier or the later definition wins, so a verdict is demanded only where both readings
-	// agree, and notes only for look-ups that mean the same under both.
+	// Override: the user files re-use built-in names; the supplied definitions are the ones in force.
 	Override bool   `json:"redefines_builtins,omitempty"`
 	Path     string `json:"path"`
 }
@@ -210,24 +208,11 @@ func c16UserEval(e *Env, c *c16Config) {
 	}
 	sort.Slice(battrs, func(i, j int) bool { return battrs[i].Name < battrs[j].Name })
 	rd, rerr := dict.Build(append(battrs, c.Attrs...), append(append([]dict.ChordDef{}, base.Order...), c.Chords...))
-	var rdFirst *dict.Dict
-	if c.Override {
-		// the other reading: the earlier (built-in) definition wins
-		var ferr error
-		rdFirst, ferr = dict.Build(append(append([]dict.AttrDef{}, c.Attrs...), battrs...), append(append([]dict.ChordDef{}, c.Chords...), base.Order...))
-		if (ferr == nil) != (rerr == nil) {
-			e.R.Outcome("override: the two readings disagree on consistency, no verdict")
-			return
-		}
-	}
-	sameMeaning := func(look string) bool {
-		if rdFirst == nil {
-			return true
-		}
-		a, ok1 := rd.Resolve(look)
-		b, ok2 := rdFirst.Resolve(look)
-		return ok1 && ok2 && eqInts(semis(a), semis(b))
-	}
+	// a user entry that re-uses a built-in name or display symbol: the statement says the supplied
+	// definitions "are usable like built-ins" and quantifies over "overriding and fresh names", so
+	// the supplied definition is the one in force for its name and its display (the reference
+	// lets later entries win). Only conflicts among the user's own entries stay unjudged (c16Ambiguous).
+	sameMeaning := func(look string) bool { return true }
 	consistent := rerr == nil
 	cyclic := rerr != nil && strings.Contains(rerr.Error(), "cyclic")
 
@@ -790,6 +775,18 @@ func c16Overrides(e *Env) {
 			c16Config{Chords: []dict.ChordDef{prim, aliasByDisplay}, Override: true},
 		)
 	}
+	// attributes: a user attribute file that re-uses a built-in attribute name; the chords that
+	// name the attribute (the user's and the built-in ones) sound the supplied interval
+	nChordCfgs := len(cfgs)
+	for _, ad := range [][2]string{{"Major9", "#9"}, {"Major3", "4"}, {"Perfect5", "b5"}, {"Minor7", "6"}, {"Major13", "b13"}, {"Perfect1", "1"}, {"Major2", "b2"}} {
+		uc := dict.ChordDef{Name: "Uses" + ad[0], Attributes: []string{"Perfect1", ad[0]}}
+		uc.Meta.Display = "u" + strings.ToLower(ad[0])
+		ext := dict.ChordDef{Name: "Over9", Extends: "9", Attributes: []string{ad[0]}}
+		ext.Meta.Display = "o9"
+		cfgs = append(cfgs,
+			c16Config{Attrs: []dict.AttrDef{{Name: ad[0], Degree: ad[1]}}, HasAttr: true, Chords: []dict.ChordDef{uc}, Override: true},
+			c16Config{Attrs: []dict.AttrDef{{Name: ad[0], Degree: ad[1]}, {Name: "Fresh", Degree: "#11"}}, HasAttr: true, Chords: []dict.ChordDef{ext, uc}, Override: true})
+	}
 	mc.ParFor(len(cfgs), func(i int) {
 		for _, path := range []string{"lib", "cli"} {
 			c := cfgs[i]
@@ -798,7 +795,7 @@ func c16Overrides(e *Env) {
 		}
 		e.R.NonTrivialN(2)
 	})
-	e.R.AddPart(ev.Part{Name: "redefined-built-ins", Enumerated: fmt.Sprintf("for every built-in chord that extends another one (%d): a user file that repeats it, flattens it, or reverses the pair (the child becomes the primary chord, the parent its alias; both declaration orders; alias by name and by display); where the dictionary is consistent whichever definition wins it must load, and every look-up that means the same under both readings must sound that; in-process and real binary", len(cfgs)/5), Executions: int64(2 * len(cfgs)), Exhaustive: true})
+	e.R.AddPart(ev.Part{Name: "redefined-built-ins", Enumerated: fmt.Sprintf("for every built-in chord that extends another one (%d): a user file that repeats it, flattens it, or reverses the pair (the child becomes the primary chord, the parent its alias; both declaration orders; alias by name and by display); and 14 attribute files that re-use a built-in attribute name: the supplied definition is the one in force for its name and display, built-in chords that name a redefined attribute sound the supplied interval, untouched built-ins keep their meaning; in-process and real binary", nChordCfgs/5), Executions: int64(2 * len(cfgs)), Exhaustive: true})
 }
 
 // c16FileSpellings: a dictionary file is YAML; however it is dressed (comments, byte-order
